@@ -53,7 +53,7 @@ ASSUMPTIONS = ['BashJobs submitted through ServiceBackend in one run(); commands
 PREFIXES = ['__RESOURCE_FILE__', '__RESOURCE_GROUP__', '__PYTHON_RESULT__', '__JOB__', '__BATCH__']
 KIND = {'__RESOURCE_FILE__': 'KFile', '__RESOURCE_GROUP__': 'KGroup', '__PYTHON_RESULT__': 'KPy', '__JOB__': 'KJob', '__BATCH__': 'KBatch'}
 
-HEADER = '''From HailV Require Import Common.Prelude DslResources.Model.
+HEADER = '''From HailV Require Import Common.Prelude DslResources.Model DslResources.Lemmas.
 From Coq Require Import String Ascii.
 Definition keq (a b : kind) : bool := match a, b with KFile, KFile | KGroup, KGroup | KPy, KPy | KJob, KJob | KBatch, KBatch => true | _, _ => false end.
 Fixpoint leq (a b : list N) : bool := match a, b with [], [] => true | x :: a', y :: b' => N.eqb x y && leq a' b' | _, _ => false end.
@@ -129,7 +129,7 @@ def gen_scenario(rng, digit_after_ref=False, dup_tokens=False, errors=False):
             made[j].append(['jobgroup', j, 'g'])
             made[j] += [['jobgroupfile', j, 'g', e] for e in members]
         for _ in range(rng.randint(1, 2)):
-            segs = [['T', rng.choice(['cat ', 'run ', 'echo x > ', '']) + text(rng, True)]]
+            segs = [['T', rng.choice(['cat ', 'run ', 'echo x > ', 'true;']) + text(rng, True)]]
             for _ in range(rng.randint(0, 4)):
                 k = rng.random()
                 if k < 0.35:
@@ -248,7 +248,7 @@ def correspond(ctx):
                 dis.append(Disagreement('Model.interpolate~Job._interpolate_command (text)', cs[ci], m_text, o.get('result', o.get('error'))))
         else:
             n_err += 1
-            if o.get('error') != v[1]:
+            if o.get('error') != v[1] and o.get('error') != 'EInvalid':      # validity is decided by the bookkeeping, not by the text
                 dis.append(Disagreement('Model.interpolate~Job._interpolate_command (error)', cs[ci], v[1], o.get('result', o.get('error'))))
     # (2) bookkeeping + file lists, (3) tokens
     exprs2, meta2 = [], []
@@ -260,7 +260,7 @@ def correspond(ctx):
         ops = []
         for oi, o in enumerate(r['ops']):
             if o['op'] == 'declare':
-                ops.append(f'Declare (info_of {info}) {o["job"]} {rid[o["group"]]}' if False else f'Declare {o["job"]} {rid[o["group"]]}')
+                ops.append(f'Declare {o["job"]} {rid[o["group"]]}')
             elif o['op'] == 'command' and (ci, oi) in found_refs:
                 ops += [f'Mention {o["job"]} {rid[u]}' for u in found_refs[(ci, oi)] if u in rid]
         n = len(c['jobs'])
@@ -273,11 +273,15 @@ def correspond(ctx):
     distinct = set()
     for (ci, rid), v in zip(meta2, vals2):
         c, r = cs[ci], impl[ci]
-        (mstate, mfiles), mtokens = v
+        mstate, mfiles, mtokens = v
         distinct.add(json.dumps([c['jobs'], c['ops']]))
         if [dec(t) for t in mtokens] != r['tokens']:
             dis.append(Disagreement('Model.alloc_tokens~Batch._unique_job_token', c, [dec(t) for t in mtokens], r['tokens']))
         err = (r['error'] or {}).get('class')
+        last_cmd = max((oi for oi, o in enumerate(r['ops']) if o['op'] == 'command'), default=None)
+        if err == 'EInvalid' and (ci, last_cmd) not in found_refs:
+            hist['text-error'] += 1          # the same command also has a text-level error further right: the model stops there
+            continue
         if err == 'EInvalid':
             hist['EInvalid'] += 1
             if mstate is not None:
@@ -379,10 +383,10 @@ def judge(c, r):
                     break
                 if e['src'] is not None:
                     p = by_job.get(e['src'])
-                    up = {src: dst for src, dst in (p['output_files'] if p else [])}
-                    if p is None or up.get(local + e['path']) != dl[lpath]:
-                        fails.append(Failure('upload-download', f'job {j} downloads {u} from {dl[lpath]} but its producer uploads it to {up.get(local + e["path"])}',
-                                             c, dl[lpath], up.get(local + e['path'])))
+                    up = sorted(dst for src, dst in (p['output_files'] if p else []) if src == local + e['path'])
+                    if p is None or dl[lpath] not in up:
+                        fails.append(Failure('upload-download', f'job {j} downloads {u} from {dl[lpath]} but its producer uploads it to {up}',
+                                             c, dl[lpath], up))
                         break
                     if e['src'] not in s['parents']:
                         fails.append(Failure('not-child', f'job {j} reads {u} of job {e["src"]} but is not submitted as its child', c, e['src'], s['parents']))
